@@ -27,22 +27,57 @@ func (c *execCtx) withCTEs(ctes []CTE, outer *scope) (*execCtx, error) {
 	if len(ctes) == 0 {
 		return c, nil
 	}
+	// CTEs are evaluated on first reference; data-modifying CTEs nobody reads run
+	// after the main query (finishCTEs), as PostgreSQL does. All share the statement snapshot.
 	cc := c.child()
-	for _, cte := range ctes {
-		rel, err := cc.runQuery(cte.Q, outer)
-		if err != nil {
-			return nil, err
-		}
-		cols := make([]colDesc, len(rel.cols))
-		for i, cd := range rel.cols {
-			cols[i] = colDesc{Table: cte.Name, Name: cd.Name, Type: cd.Type}
-			if i < len(cte.Cols) {
-				cols[i].Name = cte.Cols[i]
-			}
-		}
-		cc.ctes[cte.Name] = &relation{cols: cols, rows: rel.rows}
+	cc.cteDefs = map[string]*CTE{}
+	cc.cteOuter = outer
+	for i := range ctes {
+		cc.cteDefs[ctes[i].Name] = &ctes[i]
+		cc.cteOrder = append(cc.cteOrder, ctes[i].Name)
 	}
 	return cc, nil
+}
+
+func (c *execCtx) evalCTE(name string) error {
+	cte := c.cteDefs[name]
+	delete(c.cteDefs, name)
+	rel, err := c.runQuery(cte.Q, c.cteOuter)
+	if err != nil {
+		return err
+	}
+	cols := make([]colDesc, len(rel.cols))
+	for i, cd := range rel.cols {
+		cols[i] = colDesc{Table: cte.Name, Name: cd.Name, Type: cd.Type}
+		if i < len(cte.Cols) {
+			cols[i].Name = cte.Cols[i]
+		}
+	}
+	c.ctes[cte.Name] = &relation{cols: cols, rows: rel.rows}
+	return nil
+}
+
+// finishCTEs runs the data-modifying CTEs that were never referenced and reports a deferred CTE error.
+func (c *execCtx) finishCTEs(err error) error {
+	if err != nil {
+		return err
+	}
+	if c.cteErr != nil {
+		return c.cteErr
+	}
+	for _, name := range c.cteOrder {
+		cte, ok := c.cteDefs[name]
+		if !ok {
+			continue
+		}
+		if _, isSelect := cte.Q.(*Select); isSelect {
+			continue
+		}
+		if err := c.evalCTE(name); err != nil {
+			return err
+		}
+	}
+	return c.cteErr
 }
 
 func (c *execCtx) runSelect(s *Select, outer *scope) (*relation, error) {
@@ -50,6 +85,17 @@ func (c *execCtx) runSelect(s *Select, outer *scope) (*relation, error) {
 	if err != nil {
 		return nil, err
 	}
+	rel, err := cc.runSelectSetOps(s, outer)
+	if cc != c {
+		err = cc.finishCTEs(err)
+	}
+	if err != nil {
+		return nil, err
+	}
+	return rel, nil
+}
+
+func (cc *execCtx) runSelectSetOps(s *Select, outer *scope) (*relation, error) {
 	rel, err := cc.runSelectCore(s, outer)
 	if err != nil {
 		return nil, err
@@ -97,6 +143,11 @@ func (c *execCtx) scanTable(tr *TableRef, outer *scope) (*source, error) {
 	}
 	if tr.Schema == "" {
 		if rel := c.lookupCTE(tr.Name); rel != nil {
+			for cur := c; cur != nil; cur = cur.parent {
+				if cur.cteErr != nil {
+					return nil, cur.cteErr
+				}
+			}
 			src := &source{}
 			for _, cd := range rel.cols {
 				src.cols = append(src.cols, colDesc{Table: alias, Name: cd.Name, Type: cd.Type})
@@ -116,7 +167,7 @@ func (c *execCtx) scanTable(tr *TableRef, outer *scope) (*source, error) {
 		src.cols = append(src.cols, colDesc{Table: alias, Name: col.Name, Type: col.Type})
 	}
 	for _, r := range t.rows {
-		if c.db.visible(r, c.x) {
+		if c.vis(r) {
 			src.tuples = append(src.tuples, tuple{vals: r.vals, base: []*Row{r}})
 		}
 	}
@@ -342,19 +393,83 @@ func (c *execCtx) runSelectCore(s *Select, outer *scope) (*relation, error) {
 	}
 
 	if s.ForUpdate {
-		for _, b := range bases {
-			for _, r := range b {
-				if other := cc.db.lockedByOther(r, cc.x); other != 0 {
-					return nil, &errRetry{waitFor: other}
+		// rows are locked one after the other in output order (LockRows sits above the sort);
+		// locks already taken are kept while the statement waits for the next one
+		idx := make([]int, len(rows))
+		for i := range idx {
+			idx[i] = i
+		}
+		if len(s.OrderBy) > 0 {
+			keys := make([][]Value, len(rows))
+			sortable := true
+			for i, r := range rows {
+				for _, ob := range s.OrderBy {
+					v, err := cc.eval(ob.X, r)
+					if err != nil {
+						sortable = false
+						break
+					}
+					keys[i] = append(keys[i], v)
 				}
+				if !sortable {
+					break
+				}
+			}
+			if sortable {
+				sort.SliceStable(idx, func(a, b int) bool {
+					for k, ob := range s.OrderBy {
+						if cmp := orderCompare(keys[idx[a]][k], keys[idx[b]][k], ob); cmp != 0 {
+							return cmp < 0
+						}
+					}
+					return false
+				})
 			}
 		}
-		for _, b := range bases {
-			for _, r := range b {
-				if cc.x != nil {
-					r.locker = cc.x.top.id
+		drop := map[int]bool{}
+		for _, i := range idx {
+			b := bases[i]
+			if len(b) == 0 {
+				continue
+			}
+			if len(b) > 1 {
+				return nil, unsupported("FOR UPDATE over a join")
+			}
+			latest, changed, err := cc.latestVersion(b[0])
+			if err != nil {
+				return nil, err
+			}
+			if latest == nil {
+				drop[i] = true
+				continue
+			}
+			if changed {
+				// re-check the WHERE clause on the newest version and return that version
+				nsc := scopeOf(src.cols, latest.vals, outer)
+				if s.Where != nil {
+					v, err := cc.eval(s.Where, nsc)
+					if err != nil {
+						return nil, err
+					}
+					if !truthy(v) {
+						drop[i] = true
+						continue
+					}
+				}
+				rows[i] = nsc
+			}
+			if cc.x != nil {
+				latest.locker = cc.x.top.id
+			}
+		}
+		if len(drop) > 0 {
+			var kept []*scope
+			for i, r := range rows {
+				if !drop[i] {
+					kept = append(kept, r)
 				}
 			}
+			rows = kept
 		}
 	}
 
@@ -675,6 +790,18 @@ func (c *execCtx) runInsert(ins *Insert, outer *scope) (*relation, error) {
 	if err != nil {
 		return nil, err
 	}
+	rel, err := c.runInsertBody(cc, ins, outer)
+	if cc != c {
+		err = cc.finishCTEs(err)
+	}
+	if err != nil {
+		return nil, err
+	}
+	return rel, nil
+}
+
+func (c *execCtx) runInsertBody(cc *execCtx, ins *Insert, outer *scope) (*relation, error) {
+	var err error
 	t, err := cc.db.table(ins.Table.Schema, ins.Table.Name)
 	if err != nil {
 		return nil, err
@@ -949,6 +1076,40 @@ func (c *execCtx) insertRow(t *Table, vals []Value) *Row {
 	return r
 }
 
+// latestVersion implements the READ COMMITTED rule for rows a statement wants
+// to update, delete or lock: starting from the version its snapshot sees, follow
+// the chain of versions committed since; wait while another transaction has a
+// pending change or lock on it. It returns nil when the row was deleted (or
+// already changed by this very statement), and changed=true when the caller has
+// to re-check its WHERE clause against the newer version.
+func (c *execCtx) latestVersion(r *Row) (cur *Row, changed bool, err error) {
+	cur = r
+	for cur.xmax != 0 {
+		st := c.db.effectiveStatus(cur.xmax)
+		if st == txAborted {
+			break
+		}
+		if c.sameTop(cur.xmax) {
+			if !c.db.ownLive(cur.xmax) {
+				break
+			}
+			return nil, false, nil // already modified by this transaction (this statement)
+		}
+		if st == txInProgress {
+			return nil, false, &errRetry{waitFor: c.db.topOf(cur.xmax)}
+		}
+		if cur.next == nil {
+			return nil, false, nil // deleted
+		}
+		cur = cur.next
+		changed = true
+	}
+	if other := c.db.lockedByOther(cur, c.x); other != 0 {
+		return nil, false, &errRetry{waitFor: other}
+	}
+	return cur, changed, nil
+}
+
 // updateRow supersedes old with a new version carrying vals.
 func (c *execCtx) updateRow(t *Table, old *Row, vals []Value) (*Row, error) {
 	for ci, col := range t.Cols {
@@ -967,6 +1128,7 @@ func (c *execCtx) updateRow(t *Table, old *Row, vals []Value) (*Row, error) {
 	if old.locker != 0 {
 		nr.locker = old.locker
 	}
+	old.next = nr
 	t.rows = append(t.rows, nr)
 	if err := c.afterUpdate(t, old, nr); err != nil {
 		return nil, err
@@ -1007,6 +1169,18 @@ func (c *execCtx) runUpdate(u *Update, outer *scope) (*relation, error) {
 	if err != nil {
 		return nil, err
 	}
+	rel, err := c.runUpdateBody(cc, u, outer)
+	if cc != c {
+		err = cc.finishCTEs(err)
+	}
+	if err != nil {
+		return nil, err
+	}
+	return rel, nil
+}
+
+func (c *execCtx) runUpdateBody(cc *execCtx, u *Update, outer *scope) (*relation, error) {
+	var err error
 	t, err := cc.db.table(u.Table.Schema, u.Table.Name)
 	if err != nil {
 		return nil, err
@@ -1039,7 +1213,7 @@ func (c *execCtx) runUpdate(u *Update, outer *scope) (*relation, error) {
 	done := map[*Row]bool{}
 	snapshot := append([]*Row{}, t.rows...)
 	for _, r := range snapshot {
-		if !cc.db.visible(r, cc.x) {
+		if !cc.vis(r) {
 			continue
 		}
 		for _, ft := range from.tuples {
@@ -1058,12 +1232,28 @@ func (c *execCtx) runUpdate(u *Update, outer *scope) (*relation, error) {
 				continue
 			}
 			done[r] = true
-			targets = append(targets, target{r, sc})
-		}
-	}
-	for _, tg := range targets {
-		if other := cc.db.lockedByOther(tg.row, cc.x); other != 0 {
-			return nil, &errRetry{waitFor: other}
+			latest, changed, err := cc.latestVersion(r)
+			if err != nil {
+				return nil, err
+			}
+			if latest == nil {
+				continue
+			}
+			if changed {
+				// the row was changed by a transaction that committed after this statement's
+				// snapshot: the WHERE clause is re-checked against the newest version
+				sc = scopeOf(tcols, latest.vals, fsc)
+				if u.Where != nil {
+					v, err := cc.eval(u.Where, sc)
+					if err != nil {
+						return nil, err
+					}
+					if !truthy(v) {
+						continue
+					}
+				}
+			}
+			targets = append(targets, target{latest, sc})
 		}
 	}
 	var affected [][]Value
@@ -1133,6 +1323,18 @@ func (c *execCtx) runDelete(d *Delete, outer *scope) (*relation, error) {
 	if err != nil {
 		return nil, err
 	}
+	rel, err := c.runDeleteBody(cc, d, outer)
+	if cc != c {
+		err = cc.finishCTEs(err)
+	}
+	if err != nil {
+		return nil, err
+	}
+	return rel, nil
+}
+
+func (c *execCtx) runDeleteBody(cc *execCtx, d *Delete, outer *scope) (*relation, error) {
+	var err error
 	t, err := cc.db.table(d.Table.Schema, d.Table.Name)
 	if err != nil {
 		return nil, err
@@ -1146,8 +1348,8 @@ func (c *execCtx) runDelete(d *Delete, outer *scope) (*relation, error) {
 		tcols[i] = colDesc{Table: alias, Name: col.Name, Type: col.Type}
 	}
 	var targets []*Row
-	for _, r := range t.rows {
-		if !cc.db.visible(r, cc.x) {
+	for _, r := range append([]*Row{}, t.rows...) {
+		if !cc.vis(r) {
 			continue
 		}
 		if d.Where != nil {
@@ -1159,16 +1361,28 @@ func (c *execCtx) runDelete(d *Delete, outer *scope) (*relation, error) {
 				continue
 			}
 		}
-		targets = append(targets, r)
-	}
-	for _, r := range targets {
-		if other := cc.db.lockedByOther(r, cc.x); other != 0 {
-			return nil, &errRetry{waitFor: other}
+		latest, changed, err := cc.latestVersion(r)
+		if err != nil {
+			return nil, err
 		}
+		if latest == nil {
+			continue
+		}
+		if changed && d.Where != nil {
+			v, err := cc.eval(d.Where, scopeOf(tcols, latest.vals, outer))
+			if err != nil {
+				return nil, err
+			}
+			if !truthy(v) {
+				continue
+			}
+		}
+		targets = append(targets, latest)
 	}
 	var affected [][]Value
 	for _, r := range targets {
 		r.xmax = cc.x.id
+		r.next = nil
 		affected = append(affected, r.vals)
 	}
 	rel := &relation{}
